@@ -74,6 +74,20 @@ func corpus() []scen.Scenario {
 			scen.Scenario{Kind: kind, Source: "abaco", Nchan: 2, Groups: 1, Seed: 4, Ops: short},
 		)
 	}
+	// long enough (more than two seconds of frames) for two TRIGGERRATE messages: the status updater
+	// still holds the first one when the core loop makes the second
+	out = append(out, scen.Scenario{Kind: "race", Source: "triangle", Nchan: 2, Seed: 5, Ops: ops("trig", 1, "wait", 200, "sendall", "wait", 190)})
+	// a slow frame clock: every block spans two trigger-rate periods, so one call makes several messages
+	out = append(out, scen.Scenario{Kind: "race", Source: "abaco", Nchan: 2, Groups: 1, Slow: true, Seed: 6, Ops: ops("trig", 1, "wait", 6)})
+	// many requests back to back while blocks flow (state touched from the client's thread instead of the core loop)
+	var hammer []scen.Op
+	hammer = append(hammer, ops("trig", 1, "wstart", 0, "wait", 1)...)
+	for i := 0; i < 6; i++ {
+		hammer = append(hammer, ops("wpause", "rcomment", 2, "wunpause", "label", i, "sendall", "couple", "trig", i, "uncouple", "wcomment")...)
+	}
+	hammer = append(hammer, ops("wstop", "lengths", 1, "wait", 1)...)
+	out = append(out, scen.Scenario{Kind: "race", Source: "triangle", Nchan: 3, Seed: 7, Ops: hammer},
+		scen.Scenario{Kind: "race", Source: "simpulse", Nchan: 2, Seed: 8, Ops: hammer})
 	return out
 }
 
@@ -300,8 +314,8 @@ var inventory = []struct {
 	{1, "nextFrameNum", regexp.MustCompile(`nextFrameNum`)},
 	{2, "eTrigPackets", regexp.MustCompile(`eTrigPackets`)},
 	{3, "frame timing", regexp.MustCompile(`LastFirmwareTimestamp|LastSubframeCount|TimestampCountsPerSubframe`)},
-	{5, "block header", regexp.MustCompile(`\.nSamp|externalTriggerRowcounts|block\.err`)},
 	{12, "writingState.externalTriggerNumberObserved", regexp.MustCompile(`externalTriggerNumberObserved`)},
+	{5, "block header", regexp.MustCompile(`\.nSamp|externalTriggerRowcounts|block\.err`)},
 	{13, "writingState.Paused", regexp.MustCompile(`\.Paused`)},
 	{9, "archiveBlock", regexp.MustCompile(`archiveBlock|\bab\b|filled`)},
 	{11, "writingState", regexp.MustCompile(`writingState|\bws\.`)},
